@@ -396,8 +396,30 @@ func TestVerifProbe_StatefulNext(t *testing.T) {
 		"emptyws": {"Root": {{"Ident", `[a-z]+`, nil}, {"ws", `\s*`, nil}, {"Plus", `\+`, nil}}},
 		"emptypop": {"Root": {{"Open", `\(`, Push("In")}, {"Bang", `!`, nil}},
 			"In": {{"Close", `\)?`, Pop()}, {"Word", `[a-z]+`, nil}}},
+		// a chain of includes whose members sort after the including state
+		"nestedinc": {"Root": {{"Open", `\(`, Push("Root")}, Include("Value"), {"Close", `\)`, Pop()}},
+			"Value": {{"Ident", `[a-z]+`, nil}, Include("Ws"), {"Num", `\d+`, nil}},
+			"Ws":    {{"ws", `\s+`, nil}, Include("Zz")},
+			"Zz":    {{"Plus", `\+`, nil}}},
 	}
-	inputs := []string{"", "a", "ab c", "(a) b", "((a))", ")a", "a)", `"x$y"`, `"$`, "bc", "abc", "b", "xb", "<t>x</t>", "<t>x</u>", "a\nb\n\nc", "é a", "1 2", "ab", "$", "a+b", "(a!", "(a)!"}
+	inputs := []string{"", "a", "ab c", "(a) b", "((a))", ")a", "a)", `"x$y"`, `"$`, "bc", "abc", "b", "xb", "<t>x</t>", "<t>x</u>", "a\nb\n\nc", "é a", "1 2", "ab", "$", "a+b", "(a!", "(a)!",
+		"\ufeffab c", "\ufeff", "a \ufeff", "(a + 1)", "<a><b>x</b></a>", `"a$b$c" d`}
+	// the token stream of one isolated LexString run
+	stream := func(def *StatefulDefinition, lex Lexer, in string) string {
+		var got []string
+		for i := 0; i <= 2*len(in)+4; i++ {
+			tok, err := lex.Next()
+			if err != nil {
+				got = append(got, "error: "+err.Error())
+				break
+			}
+			got = append(got, fmt.Sprintf("%d:%q@%d:%d:%d", tok.Type, tok.Value, tok.Pos.Offset, tok.Pos.Line, tok.Pos.Column))
+			if tok.EOF() {
+				break
+			}
+		}
+		return fmt.Sprint(got)
+	}
 	for name, rules := range defs {
 		def, err := New(rules)
 		if err != nil {
@@ -431,6 +453,44 @@ func TestVerifProbe_StatefulNext(t *testing.T) {
 				}
 				if fmt.Sprint(got) != fmt.Sprint(want) || gotErr != wantErr {
 					pr.fail("definition %s, input %q: lexer gives %v (error offset %d), the rules define %v (error offset %d)", name, in, got, gotErr, want, wantErr)
+				}
+			})
+			// entry points agree (C15) and concurrent lexers of one definition do not disturb each other (C09)
+			safely(pr, fmt.Sprintf("definition %s, input %q (entry points)", name, in), func() {
+				a, _ := def.LexString("file", in)
+				want := stream(def, a, in)
+				b, err := def.Lex("file", strings.NewReader(in))
+				if err != nil {
+					pr.fail("definition %s, input %q: Lex(reader) fails: %v", name, in, err)
+					return
+				}
+				if got := stream(def, b, in); got != want {
+					pr.fail("definition %s, input %q: Lex(reader) gives %s, LexString gives %s", name, in, got, want)
+				}
+				// two lexers of the same definition stepped alternately
+				x, _ := def.LexString("file", in)
+				y, _ := def.LexString("file", in)
+				var gx, gy []string
+				for i := 0; i <= 2*len(in)+4; i++ {
+					tx, ex := x.Next()
+					ty, ey := y.Next()
+					gx = append(gx, fmt.Sprint(tx, ex))
+					gy = append(gy, fmt.Sprint(ty, ey))
+					if ex != nil || ey != nil || (tx.EOF() && ty.EOF()) {
+						break
+					}
+				}
+				if fmt.Sprint(gx) != fmt.Sprint(gy) {
+					pr.fail("definition %s, input %q: two lexers of one definition stepped alternately disagree: %v vs %v", name, in, gx, gy)
+				}
+				z, _ := def.LexString("file", in)
+				var gz []string
+				for i := 0; i < len(gx); i++ {
+					tz, ez := z.Next()
+					gz = append(gz, fmt.Sprint(tz, ez))
+				}
+				if fmt.Sprint(gx) != fmt.Sprint(gz) {
+					pr.fail("definition %s, input %q: a lexer stepped alternately with another of the same definition gives %v, alone it gives %v", name, in, gx, gz)
 				}
 			})
 			safely(pr, fmt.Sprintf("definition %s, input %q", name, in), func() {
